@@ -54,11 +54,12 @@ fn parse(entry: usize, input: &[u8]) -> Option<Out> {
         0 => Out::A(v1_bytes(input)),
         1 => Out::A(v1_str(std::str::from_utf8(input).ok()?)),
         2 => Out::B(v2_parse(input)),
-        _ => Out::C(auto_parse(input)),
+        3 => Out::C(auto_parse(input)),
+        _ => Out::A(v1_fromstr_header(std::str::from_utf8(input).ok()?)),
     })
 }
 
-const ENTRY: [&str; 4] = ["v1-bytes", "v1-str", "v2", "auto"];
+const ENTRY: [&str; 5] = ["v1-bytes", "v1-str", "v2", "auto", "fromstr-header"];
 
 pub fn judge(x: &[u8], rng: &mut Rng, rec: &mut Recorder, kind: &str) {
     let mut any_ok = false;
@@ -78,7 +79,7 @@ pub fn judge(x: &[u8], rng: &mut Rng, rec: &mut Recorder, kind: &str) {
             _ => (0..n).map(|_| *rng.pick(&[b'\r', b'\n', b' ', b'a', b':', b'.', 0u8, b'f'])).collect(),
         });
     }
-    for entry in 0..4 {
+    for entry in 0..5 {
         let r0 = match parse(entry, x) {
             Some(r) => r,
             None => continue,
@@ -144,7 +145,7 @@ impl Monitor for C04 {
         "C04"
     }
     fn rule(&self) -> &'static str {
-        "cases = inputs of the v1 and v2 workloads (valid and near-miss alike); every input that the implementation accepts through try_from(&[u8]) / try_from(&str) / v2 / HeaderResult::parse is re-parsed alone (reported header bytes only) and followed by each of 15 fixed trailers (empty, HTTP request, another v1 line, a v2 header, CR, LF, NUL, SP, digits and hex digits that would extend the last field, ...) plus 4 random ones, appended both to the input and to the reported header; non-trivial = the implementation accepted the input through at least one entry point; distinct = distinct inputs"
+        "cases = inputs of the v1 and v2 workloads (valid and near-miss alike); every input that the implementation accepts through try_from(&[u8]) / try_from(&str) / str::parse::<Header> / v2 / HeaderResult::parse is re-parsed alone (reported header bytes only) and followed by each of 15 fixed trailers (empty, HTTP request, another v1 line, a v2 header, CR, LF, NUL, SP, digits and hex digits that would extend the last field, ...) plus 4 random ones, appended both to the input and to the reported header; non-trivial = the implementation accepted the input through at least one entry point; distinct = distinct inputs"
     }
     fn streams(&self, tier: Tier) -> Vec<StreamSpec> {
         let mut s = v1_streams(tier, 2_000);
